@@ -81,7 +81,7 @@ theorem added_clauses_are_conjoined (s s' : EC.State) (e : EC.Edit) (hs : EC.Agr
 (the guard that was missing: defect D29), and conjoins that literal -/
 theorem unit_shortcut_only_for_pure_unit_edits (s s' : EC.State) (e : EC.Edit) (ch : EC.Choice)
     (h : EC.applyEdit s e ch = (s', .unitClause)) :
-    ∃ l, e.adds = [[l]] ∧ e.rmvs = [] ∧ s'.cur.den = s.cur.den ++ [[l]] ∧ s'.cache = [] :=
+    ∃ l, e.adds = [[l]] ∧ e.rmvs = [] ∧ s'.cur.den = s.cur.den ++ [[l]] ∧ s'.cache = [(e, s.cur)] :=
   EC.unit_den s s' e ch h
 
 /-- **the inverse of the latest edit restores all previous answers**: after a recompiled edit the edit
@@ -93,6 +93,15 @@ theorem inverse_of_latest_edit_restores_previous_state (s s1 : EC.State) (e : EC
     (EC.applyEdit (EC.applyEdit s1 e.inv ch').1 e ch').2 = .undo ∧
     (EC.applyEdit (EC.applyEdit s1 e.inv ch').1 e ch').1.cur = s1.cur :=
   EC.inverse_restores s s1 e ch' h
+
+/-- … and so does the inverse of a unit clause edit (the state before it is cached under the edit:
+repair D32 — before, removing a unit clause over a new feature left the feature count raised) -/
+theorem inverse_of_unit_clause_edit_restores_previous_state (s s1 : EC.State) (e : EC.Edit)
+    (ch ch' : EC.Choice) (h : EC.applyEdit s e ch = (s1, .unitClause)) :
+    (EC.applyEdit s1 e.inv ch').2 = .undo ∧ (EC.applyEdit s1 e.inv ch').1.cur = s.cur ∧
+    (EC.applyEdit (EC.applyEdit s1 e.inv ch').1 e ch').2 = .undo ∧
+    (EC.applyEdit (EC.applyEdit s1 e.inv ch').1 e ch').1.cur = s1.cur :=
+  EC.inverse_restores_unit s s1 e ch ch' h
 
 /-- `Undo` never does anything but restore a cached snapshot whose edit is the inverse of the request -/
 theorem undo_only_restores_the_inverse (s s' : EC.State) (e : EC.Edit) (ch : EC.Choice)
